@@ -124,7 +124,7 @@ Record lstate := {
   ls_ext_alloc : bool;                         (* typeDefExtensions map allocated *)
   ls_types : list typedef;
   ls_conds : list (str * condition);
-  ls_exts : list (str * typedef);              (* typeDefExtensions, insertion order *)
+  ls_exts : list (str * (nat * typedef));      (* typeDefExtensions: name -> (index in ls_types, definition) *)
   ls_errs : list lerror;
   ls_schema : str;
 }.
@@ -183,7 +183,7 @@ Definition walk_typedecl (t : typedecl) (s : lstate) : outcome lstate unit :=
         | None =>
             if ls_ext_alloc s1 then
               Ok {| ls_modular := ls_modular s1; ls_module := ls_module s1; ls_ext_alloc := true;
-                    ls_types := ls_types s1; ls_conds := ls_conds s1; ls_exts := ls_exts s1 ++ [(name, td)];
+                    ls_types := ls_types s1; ls_conds := ls_conds s1; ls_exts := ls_exts s1 ++ [(name, (length (ls_types s), td))];
                     ls_errs := ls_errs s1; ls_schema := ls_schema s1 |}
             else Panic (lit "assignment to entry in nil map: typeDefExtensions")
         end
